@@ -53,6 +53,10 @@ PollOutcome(c) ==
      IN /\ vfn' = (IF useVfn THEN vfn + 1 ELSE vfn) /\ bkcalls' = (IF useBk THEN bkcalls + 1 ELSE bkcalls)
         /\ ev' = r @@ [e |-> "poll", c |-> c, ns |-> 0, nd |-> 1] @@ Obs(IF useVfn THEN vfn + 1 ELSE vfn, IF useBk THEN bkcalls + 1 ELSE bkcalls)
   /\ UNCHANGED <<cfg, gout, gid, ngate>>
+\* a panic of the inner call is the request's own (in-situ runs): no strategy is consulted
+PollPanic(c) == /\ st[c] = "running" /\ gout[c] = "panic" /\ st' = [st EXCEPT ![c] = "done"]
+                /\ ev' = [e |-> "poll", c |-> c, res |-> "panic", ns |-> 0, nd |-> 1] @@ Obs(vfn, bkcalls)
+                /\ UNCHANGED <<cfg, gout, gid, ngate, vfn, bkcalls>>
 PollStutter(c) == /\ ((st[c] = "running" /\ gout[c] = "pending") \/ st[c] = "created")
                   /\ ev' = [e |-> "poll", c |-> c, res |-> "pending", ns |-> 0, nd |-> 0] @@ Obs(vfn, bkcalls)
                   /\ UNCHANGED <<cfg, st, gout, gid, ngate, vfn, bkcalls>>
@@ -60,7 +64,7 @@ Drop(c) == /\ st[c] \in {"created", "running"} /\ st' = [st EXCEPT ![c] = "done"
            /\ ev' = [e |-> "drop", c |-> c, ns |-> 0] @@ Obs(vfn, bkcalls)
            /\ UNCHANGED <<cfg, gout, gid, ngate, vfn, bkcalls>>
 Advance(d) == ev' = [e |-> "advance", d |-> d] @@ Obs(vfn, bkcalls) /\ UNCHANGED <<cfg, st, gout, gid, ngate, vfn, bkcalls>>
-PollAny(c) == FirstPoll(c) \/ PollOutcome(c) \/ PollStutter(c)
+PollAny(c) == FirstPoll(c) \/ PollOutcome(c) \/ PollStutter(c) \/ PollPanic(c)
 Next == \/ \E c \in Callers : Create(c) \/ FirstPoll(c) \/ PollOutcome(c)
         \/ \E c \in Callers, o \in Outs : Complete(c, o)
 Spec == Init /\ [][Next]_vars
